@@ -29,11 +29,14 @@ func (p Path) Render() string {
 func (p Path) RenderWin() string {
 	s := strings.Join(p.Parts, "\\")
 	if p.Abs {
-		return "C:\\" + s
+		return WinVolume + "\\" + s
 	}
 
 	return s
 }
+
+// WinVolume is the volume the Windows-typed paths are rendered in (a driver process serves one target).
+var WinVolume = "C:"
 
 // ParsePathWin converts a concrete Windows-style path into the abstract form.
 func ParsePathWin(s string) Path {
